@@ -132,7 +132,7 @@ func (c18) Gen(r *Rng, tier string, run int) *Trace {
 		case 9:
 			op := Op{Obj: s0, M: r.PickStr("SetSymbol", "Symbol")}
 			for k := r.Intn(3); k > 0; k-- {
-				op.Args = append(op.Args, []Val{vStr("&"), vStr("||"), {K: "rune", I: '!'}, vStr("")}[r.Intn(4)])
+				op.Args = append(op.Args, []Val{vStr("&"), vStr("||"), {K: "rune", I: '!'}, vStr(""), vStr("xor"), vStr("Nand")}[r.Intn(6)])
 			}
 			g.emit(op, false)
 		case 10:
